@@ -153,7 +153,7 @@ def stepOp (env : List (Ten Q)) (op : Op) : Option (Except Err (Res Q)) :=
   | .sub a b => do let A ← g a; let B ← g b; pure (lift (A.sub B))
   | .get a I => (g a).map (fun T => T.getitem I)
   | .squeeze a ax => (g a).map (fun T => T.squeeze ax)
-  | .nway a ops => (g a).map (fun T => lift (T.nway ops))
+  | .nway a ops => (g a).map (fun T => lift (T.nway false ops))
   | .pad a pw => (g a).map (fun T => lift (T.pad pw))
   | .c2t a => (g a).map (fun T => lift (tuckerFromTensor T))
   | .t2c a => (g a).map (fun T => lift (canFromTensor T))
@@ -224,7 +224,8 @@ def runCOps : List (COp Q) → List COpOp → List String → Option (List Strin
       | some (.ok (.inr T)) => runCOps env ops (showTen T :: acc)
 
 def showLog (l : List (Nat × Nat × Nat)) : String :=
-  showList (fun (t : Nat × Nat × Nat) => s!"{t.1},{t.2.1},{t.2.2}") l.reverse
+  showList (fun (t : Nat × Nat × Nat) =>
+    if t.2.2 = 1 then s!"{t.1},{t.2.1},{t.2.2}" else s!"{t.1},-,{t.2.2}") l.reverse
 
 def request : P String := do
   let op ← tok
